@@ -112,7 +112,7 @@ func genStack(r *hx.Rand, nphase int) json.RawMessage {
 func gen(r *hx.Rand, tier string) []json.RawMessage {
 	na, nt, ns := 80, 40, 70
 	if tier == "thorough" {
-		na, nt, ns = 3000, 600, 1500
+		na, nt, ns = 2000, 400, 500
 	}
 	var out []json.RawMessage
 	// directed: the two stack shapes with confirmed defects (fixed): MMU cache below a TLB, GMMU with remote pages
